@@ -162,6 +162,43 @@ theorem selects_own (n : String) (ps : List (String × JVal)) (hnn : ∀ kv ∈ 
     cases hv : kv.2 <;> simp_all
   simp [selects, hname, hall]
 
+/-- `complete_scan_run` (any number of times, with any properties) on a run whose pre-properties were never written leaves
+    `properties_pre` NULL -/
+theorem complete_keeps_pre_null (rc : RunCols) (hpre : rc.pre = none) (calls : List RunCall)
+    (hc : ∀ c ∈ calls, ∃ p, c = RunCall.complete p) :
+    (calls.foldl RunCols.apply rc).pre = none ∧ (calls.foldl RunCols.apply rc).ecuName = rc.ecuName := by
+  induction calls generalizing rc with
+  | nil => exact ⟨hpre, rfl⟩
+  | cons c cs ih =>
+    obtain ⟨p, rfl⟩ := hc c (List.mem_cons_self ..)
+    have := ih (rc.apply (.complete p)) (by simpa [RunCols.apply] using hpre) (fun c hc' => hc c (List.mem_cons_of_mem _ hc'))
+    simpa [List.foldl_cons, RunCols.apply] using this
+
+/-- **a run without pre-properties is never selected by a property value.**  A scan run was inserted and completed
+    (`complete_scan_run`, with whatever post-properties - also ones that equal what the selector asks for) but
+    `insert_scan_run_properties_pre` never ran (the write failed or was skipped): a virtual ECU selected by properties of which at
+    least one has a value (not `None`) does not see the rows of this run, whatever ECU name it is selected by in addition. -/
+theorem run_without_pre_properties_never_selected (sel : Selector) (ps : List (String × JVal)) (hs : sel.props = some ps)
+    (kv : String × JVal) (hmem : kv ∈ ps) (hval : kv.2 ≠ .null)
+    (name : Option String) (calls : List RunCall) (hc : ∀ c ∈ calls, ∃ p, c = RunCall.complete p) :
+    selects sel (RunCols.after name calls).info = false := by
+  have h := complete_keeps_pre_null ⟨name, none, none⟩ rfl calls hc
+  apply other_props_ignored sel _ ps kv.1 kv.2 hs hmem
+  unfold RunCols.after RunCols.info
+  rw [h.1]
+  simpa [RunInfo.extract] using fun h' => hval h'.symm
+
+/-- only `insert_scan_run_properties_pre` decides about the selection: completing a run changes nothing -/
+theorem complete_scan_run_keeps_selection (sel : Selector) (rc : RunCols) (p : List (String × JVal)) :
+    selects sel (rc.apply (.complete p)).info = selects sel rc.info := rfl
+
+/-- non-vacuity: completed with exactly the properties the selector asks for and still not selected; with the pre-properties
+    written it is; a selector that asks for an absent property (`None`) does see the run without pre-properties -/
+example :
+    selects ⟨none, some [("sw", .str "2.0")]⟩ (RunCols.after (some "E") [.complete [("sw", .str "2.0")]]).info = false ∧
+    selects ⟨none, some [("sw", .str "2.0")]⟩ (RunCols.after (some "E") [.insertPre [("sw", .str "2.0")], .complete [("sw", .str "2.1")]]).info = true ∧
+    selects ⟨none, some [("sw", .null)]⟩ (RunCols.after (some "E") [.complete [("sw", .str "2.0")]]).info = true := by decide
+
 /-- **C12 on a whole database.** The run of ECU `ri` was recorded into rows `id0, id0+1, …` of a database that also holds any
     number of runs which the selector (ECU name and / or properties) does not select, and later runs of whatever ECU. A virtual ECU
     started on that database with a selector that selects `ri` replays the recorded replies (silence where none was recorded),
